@@ -1,7 +1,7 @@
 #!/bin/bash
 # usage: tools/verify_seed.sh Cxx   -- independent confirmation of a seeded change in /tmp/seed/Cxx
 # (patch applies to clean HEAD, existing tests pass with it, demo fails with it and passes without it)
-id=$1; d=/tmp/seed/$id
+id=$1; d=${SEED_BASE:-/tmp/seed2}/$id
 cd "$d" || exit 2
 feat=$(python3 -c "import json;print('memmap,verif' if 'verif' in json.load(open('SEED/meta.json')).get('demo_cmd','') else 'memmap')")
 git checkout -q -- rarena-allocator/src 2>/dev/null
